@@ -370,7 +370,7 @@ func genRT(pr rtProfile) func(r *rand.Rand, w *W) [][]string {
 				pool = append(pool, p)
 				stems = append(stems, p)
 			}
-			switch r.Intn(13) {
+			switch r.Intn(14) {
 			case 0: // a parameter route that is a prefix of another one, emptied by explicit method lists, then its twin
 				par := pick(r, []string{"{id}", "{id:digit}", "{id:\\d+}", "{id:[a-z]+}"})
 				if par == "{id:digit}" && len(ics) == 0 {
@@ -533,6 +533,15 @@ func genRT(pr rtProfile) func(r *rand.Rand, w *W) [][]string {
 				addH(base+"/p/{a}/x/{c}", "PUT")
 				ops = append(ops, []string{"serve", "POST", base + "/p/1/x/2/more"}, []string{"serve", "OPTIONS", base + "/p/1/x/2/more"})
 				w.Count("shape-shared-text-after-parameters")
+			case 12: // same-kind siblings whose stored order no longer reflects their weights (one became an inner node after
+				// it was placed); the removal of an unrelated sibling must not reorder them
+				addH(base+"/zzz", "GET")
+				addH(base+"/{a}/x", "GET")
+				addH(base+"/{b}/{c}", "GET")
+				ops = append(ops, []string{"serve", "GET", base + "/v/x"}, []string{"serve", "GET", base + "/v/w"})
+				ops = append(ops, append([]string{"remove", "r", base + "/zzz"}, list()...))
+				ops = append(ops, []string{"serve", "GET", base + "/v/x"}, []string{"serve", "GET", base + "/v/w"})
+				w.Count("shape-stale-sibling-order")
 			default: // '-' parameters with alternations
 				addH(base+"/{-ver:v1|v2}/users", "GET")
 				addH(base+"/{kind:a|ab}/x", "GET")
@@ -592,6 +601,9 @@ func genRT(pr rtProfile) func(r *rand.Rand, w *W) [][]string {
 						} else {
 							ms = append(ms, pick(r, handleMethods))
 						}
+					}
+					if len(ms) > 0 && r.Intn(5) == 0 {
+						ms = append(ms, ms[0]) // the same method twice in one call
 					}
 					ops = append(ops, append([]string{"remove", "r", pick(r, pool)}, list(ms...)...))
 				}
